@@ -178,12 +178,16 @@ func (g *gen) classes() []zn.Stmt {
 			{Name: "表", Init: listDefault},
 			{Name: "典", Init: &zn.DictLit{Keys: []string{"k"}, Vals: []zn.Expr{num(1)}}},
 			{Name: "名", Init: &zn.Str{V: name}},
+			// a scalar default that is never reassigned, only changed in place (自增 / 自减)
+			{Name: "次", Init: num(0)},
 		}}
 		c.Methods = []zn.FuncDef{
 			{Name: "加", Params: []string{"D"}, Body: []zn.Stmt{show(name+"-加", this("数"), v("D")), set(this("数"), bin("+", this("数"), v("D"))), ret(v("此"))}},
 			{Name: "取", Body: []zn.Stmt{ret(this("数"))}},
 			{Name: "推", Params: []string{"E"}, Body: []zn.Stmt{&zn.ExprStmt{E: &zn.MCall{Root: this("表"), Chain: []zn.Call{{Name: "后增", Args: []zn.Expr{v("E")}}}}}, ret(&zn.Member{Root: this("表"), Name: "长度"})}},
 			{Name: "取表", Body: []zn.Stmt{ret(this("表"))}},
+			{Name: "计", Params: []string{"D"}, Body: []zn.Stmt{&zn.ExprStmt{E: &zn.MCall{Root: this("次"), Chain: []zn.Call{{Name: "自增", Args: []zn.Expr{v("D")}}}}}, ret(this("次"))}},
+			{Name: "减数", Params: []string{"D"}, Body: []zn.Stmt{&zn.ExprStmt{E: &zn.MCall{Root: this("数"), Chain: []zn.Call{{Name: "自减", Args: []zn.Expr{v("D")}}}}}, ret(this("数"))}},
 			{Name: "调", Body: []zn.Stmt{ret(&zn.Call{Name: "双", Args: []zn.Expr{this("数")}})}},
 			{Name: "自增两次", Body: []zn.Stmt{&zn.ExprStmt{E: &zn.MCall{Root: v("此"), Chain: []zn.Call{{Name: "加", Args: []zn.Expr{num(1)}}, {Name: "加", Args: []zn.Expr{num(1)}}}}}, ret(this("数"))}},
 			{Name: "并", Params: []string{"别"}, Body: []zn.Stmt{
@@ -208,7 +212,7 @@ func (g *gen) classes() []zn.Stmt {
 }
 
 func (g *gen) showObj(o string) zn.Stmt {
-	return show("obj-"+o, &zn.Member{Root: v(o), Name: "数"}, &zn.Member{Root: v(o), Name: "表"}, &zn.Member{Root: v(o), Name: "典"})
+	return show("obj-"+o, &zn.Member{Root: v(o), Name: "数"}, &zn.Member{Root: v(o), Name: "表"}, &zn.Member{Root: v(o), Name: "典"}, &zn.Member{Root: v(o), Name: "次"})
 }
 
 func (g *gen) mainOps() []zn.Stmt {
@@ -217,7 +221,29 @@ func (g *gen) mainOps() []zn.Stmt {
 	fresh := 0
 	nm := func(p string) string { fresh++; return fmt.Sprintf("%s%d", p, fresh) }
 	for i := 0; i < n; i++ {
-		switch g.pick(16, "op") {
+		switch g.pick(17, "op") {
+		case 16: // in-place change of a scalar property: this object's only
+			if len(g.objs) == 0 {
+				continue
+			}
+			o := g.objs[g.pick(len(g.objs), "io")]
+			switch g.pick(3, "ip") {
+			case 0:
+				out = append(out, show("计", &zn.MCall{Root: v(o), Chain: []zn.Call{{Name: "计", Args: []zn.Expr{g.numArg(1)}}}}))
+			case 1:
+				out = append(out, show("减数", &zn.MCall{Root: v(o), Chain: []zn.Call{{Name: "减数", Args: []zn.Expr{g.numArg(1)}}}}))
+			case 2:
+				out = append(out, &zn.ExprStmt{E: &zn.MCall{Root: &zn.Member{Root: v(o), Name: "次"}, Chain: []zn.Call{{Name: "自增", Args: []zn.Expr{g.numArg(1)}}}}})
+			}
+			for _, x := range g.objs {
+				out = append(out, g.showObj(x))
+			}
+			// an object created afterwards starts from the untouched defaults
+			cls := []string{"甲类", "乙类"}[g.pick(2, "icls")]
+			f := nm("O")
+			out = append(out, &zn.Let{Names: []string{f}, E: &zn.New{Class: cls, Args: g.ctorArgs(cls)}}, g.showObj(f))
+			g.objs = append(g.objs, f)
+			g.labels["in-place-scalar"] = true
 		case 0, 1: // create an object
 			cls := []string{"甲类", "乙类"}[g.pick(2, "cls")]
 			o := nm("O")
@@ -392,7 +418,7 @@ func TestCalls(t *testing.T) {
 		if g.twoReceivers {
 			labels = append(labels, "two-receivers")
 		}
-		nt := g.twoReceivers || g.labels["得到"] || g.labels["chain"] || g.labels["recursion>=3"]
+		nt := g.twoReceivers || g.labels["in-place-scalar"] || g.labels["得到"] || g.labels["chain"] || g.labels["recursion>=3"]
 		h.R.Case(t, "calls", src, s, labels, nt, fails)
 	})
 }
